@@ -18,7 +18,7 @@ for log in glob.glob("/tmp/confirm_*.log"):
                                               "relevant repo test modules with the patch: " + (tests[-1].strip() if tests else "n/a"))
         elif "NOT CONFIRMED" in conf or "PATCH DOES NOT APPLY" in conf:
             m["confirmed_by_main_session"] = "NOT CONFIRMED: " + conf[-300:]
-        if "exit=" in chk:
+        if "exit=" in chk and not m.get("detected_by"):
             lines = [l.strip() for l in chk.splitlines() if l.startswith("VIOLATION") or l.strip().startswith("signature=")]
             status = "DETECTED" if "VIOLATION" in chk else ("MISSED" if "exit=0" in chk else "ERROR")
             m.setdefault("first_quick_result", status)
